@@ -81,6 +81,7 @@ type LNode struct {
 	Dead    string // non-empty after a panic
 	// CommitErr, if set, makes the commit callback fail (environment answer).
 	CommitErr bool
+	seq       []seqEv         // outputs and commits in the order they happened
 	early     []earlyMsg      // messages delivered for a height above the current one (the code caches them)
 	Approved  map[string]bool // tags approved by this node's consumer validator
 	Requested map[string]bool
@@ -101,10 +102,12 @@ func NewLNode(w *World, idx int) *LNode {
 		}
 		n.Blocks = append(n.Blocks, b)
 		n.Proofs = append(n.Proofs, append([]byte{}, p...))
+		n.seq = append(n.seq, seqEv{true, len(n.Blocks) - 1})
 		return nil
 	}, func(ctx context.Context, h primitives.BlockHeight, prev interfaces.Block, can bool) {
 		n.Rounds = append(n.Rounds, fmt.Sprintf("%d/%v", h, can))
 	})
+	n.Comm.Hook = func(kit.Out) { n.seq = append(n.seq, seqEv{false, len(n.Comm.Outs) - 1}) }
 	n.BU.View = func() uint64 { return uint64(n.V.S.View()) }
 	n.seed = randomseed.CalculateRandomSeed(nil)
 	return n
@@ -147,6 +150,7 @@ func (n *LNode) Step(e Event, raw *interfaces.ConsensusRawMessage, info ref.Info
 		n.seed = t.VerifRandomSeed()
 	}
 	preOuts, preCommits, preAll, preVals, preReqs := len(n.Comm.Outs), len(n.Blocks), len(n.Store.All), len(n.BU.Vals), len(n.BU.Reqs)
+	preSeq := len(n.seq)
 	preView := uint64(n.V.S.View())
 	preHeight := uint64(n.V.S.Height())
 	prePrep, preComm, preLatest := n.flags()
@@ -228,16 +232,15 @@ func (n *LNode) Step(e Event, raw *interfaces.ConsensusRawMessage, info ref.Info
 		obs.Viol = append(obs.Viol, Violation{Prop: prop, Clause: clause, Detail: fmt.Sprintf("n%d: ", n.Idx) + fmt.Sprintf(format, a...)})
 	}
 
-	// ---- outputs, in emission order
-	for _, o := range n.Comm.Outs[preOuts:] {
+	// ---- outputs and commits, in the order they happened (a step may commit a height and go on in the next one)
+	handleOut := func(o kit.Out) {
 		oi := ref.Parse(o.Msg)
 		obs.Outs = append(obs.Outs, OutRec{To: n.idxOf(o.To), Raw: o.Msg, Info: oi})
 		if oi.Bad || oi.Sender.ID != me || oi.Hdr.Height != sh.Height {
-			// outputs of the next height emitted in the step that committed belong to the new term
-			if !oi.Bad && oi.Hdr.Height != sh.Height && oi.Hdr.Height != height {
+			if !oi.Bad && oi.Hdr.Height != sh.Height {
 				bad("C17", "output-for-other-height", "emitted %s while at height %d", oi.Desc(), sh.Height)
 			}
-			continue
+			return
 		}
 		v := oi.Hdr.View
 		if !oi.Sender.SigOK {
@@ -332,6 +335,7 @@ func (n *LNode) Step(e Event, raw *interfaces.ConsensusRawMessage, info ref.Info
 			sh.MaxOut = v
 		}
 	}
+	_ = preOuts
 
 	// ---- stores: adopting a foreign proposal in a view above 0 needs a valid NEW_VIEW (C07)
 	for _, d := range n.Store.All[preAll:] {
@@ -346,7 +350,7 @@ func (n *LNode) Step(e Event, raw *interfaces.ConsensusRawMessage, info ref.Info
 	}
 
 	// ---- commits
-	for k := preCommits; k < len(n.Blocks); k++ {
+	handleCommit := func(k int) {
 		b, p := n.Blocks[k], n.Proofs[k]
 		c := CommitRec{Height: uint64(b.Height()), Tag: kit.TagOf(b)}
 		pr := protocol.BlockProofReader(p)
@@ -375,7 +379,18 @@ func (n *LNode) Step(e Event, raw *interfaces.ConsensusRawMessage, info ref.Info
 			bad("C13", "commit-heights-not-increasing", "commit for height %d after commit for height %d", c.Height, n.Commits[len(n.Commits)-2].Height)
 		}
 		sh.Committed = true
+		// the term of the next height starts right after the commit callback returned
+		sh.Reset(c.Height + 1)
+		n.replayEarly(c.Height + 1)
 	}
+	for _, ev := range n.seq[preSeq:] {
+		if ev.commit {
+			handleCommit(ev.idx)
+		} else {
+			handleOut(n.Comm.Outs[ev.idx])
+		}
+	}
+	_ = preCommits
 	if view < sh.View && height == sh.Height {
 		bad("C13", "view-decreased", "state view %d after %d at height %d", view, sh.View, height)
 	}
@@ -385,24 +400,6 @@ func (n *LNode) Step(e Event, raw *interfaces.ConsensusRawMessage, info ref.Info
 	if height != sh.Height {
 		sh.Reset(height)
 		n.replayEarly(height)
-		// outputs of the new height emitted in this very step (after the commit) belong to the new shadow
-		for _, o := range obs.Outs {
-			oi := o.Info
-			if oi.Bad || oi.Sender.ID != me || oi.Hdr.Height != height {
-				continue
-			}
-			switch oi.Kind {
-			case ref.KPP:
-				sh.OwnProp[oi.Hdr.View] = oi.Hdr.Hash
-				sh.Accepted[oi.Hdr.View], sh.AccTag[oi.Hdr.View] = oi.Hdr.Hash, oi.BlockTag
-			case ref.KP:
-				sh.OwnPrep[oi.Hdr.View] = oi.Hdr.Hash
-				sh.Accepted[oi.Hdr.View], sh.AccTag[oi.Hdr.View] = oi.Hdr.Hash, sh.Props[oi.Hdr.View][oi.Hdr.Hash]
-				sh.Recheck(oi.Hdr.View)
-			case ref.KC:
-				sh.OwnCommit[oi.Hdr.View] = oi.Hdr.Hash
-			}
-		}
 	}
 	sh.View = view
 	if view > sh.MaxOut {
@@ -594,6 +591,11 @@ func (n *LNode) mayInfluence(i ref.Info, height, view uint64) (bool, string) {
 	return true, ""
 }
 
+type seqEv struct {
+	commit bool
+	idx    int
+}
+
 type earlyMsg struct {
 	raw  *interfaces.ConsensusRawMessage
 	info ref.Info
@@ -620,4 +622,13 @@ func (n *LNode) replayEarly(height uint64) {
 		}
 	}
 	n.early = keep
+}
+
+// EarlyRaw lists the future-height messages delivered to this node that it has not reached yet.
+func (n *LNode) EarlyRaw() []*interfaces.ConsensusRawMessage {
+	var r []*interfaces.ConsensusRawMessage
+	for _, m := range n.early {
+		r = append(r, m.raw)
+	}
+	return r
 }
